@@ -219,7 +219,7 @@ static force_inline void reduce_32(int satot, int srtot,
     sgtot = CLIP (sgtot, 0, 0xff);
     sbtot = CLIP (sbtot, 0, 0xff);
 
-    *ret = ((satot << 24) | (srtot << 16) | (sgtot <<  8) | (sbtot));
+    *ret = (((uint32_t) satot << 24) | (srtot << 16) | (sgtot <<  8) | (sbtot));
 }
 
 static force_inline void accum_float(int *satot, int *srtot,
